@@ -801,6 +801,10 @@ Proof.
   intros y By Byr Hy. apply Hagree; [eapply below_step; eassumption|exact Byr|exact Hy].
 Qed.
 
+(* every non-root descriptor has an existing parent *)
+Definition tree_ok (m : mdib) : Prop :=
+  forall h d p, descrs m h = Some d -> d_parent d = Some p -> descrs m p <> None.
+
 Section DescrFold.
   Variable good : H -> Prop.
   Variable m : mdib.
@@ -1774,7 +1778,11 @@ Section DescrFold.
     cf_absent : forall h, plain h -> descrs m h = None -> descrs m' h = None;
     cf_cdeleted : forall D x ch c, In (D, None) L -> In x (subtree m D) -> cstates m ch = Some c -> c_dh c = x ->
       cstates m' ch = None /\ sv_c m' ch = Some (c_ver c);
-    cf_cdom : forall ch, cstates m' ch <> None -> In ch (cdom m')
+    cf_cdom : forall ch, cstates m' ch <> None -> In ch (cdom m');
+    cf_tree : tree_ok m ->
+      (forall h d p, In (h, Some d) L -> descrs m h = None -> d_parent d = Some p ->
+         descrs m p <> None \/ exists d2, In (p, Some d2) L /\ descrs m p = None) ->
+      tree_ok m'
   }.
 
   Section Committed.
@@ -1950,6 +1958,42 @@ Section DescrFold.
           apply (below_absent _ _ _ Eo) in B. subst D. now apply del_exists in HD.
     Qed.
 
+    Lemma child_Rm h o p : Rm p -> descrs m h = Some o -> d_parent o = Some p -> Rm h.
+    Proof.
+      intros R E P. destruct (Rm_below p R) as (_ & D & HD & B). apply (below_Rm D); [exact HD|]. eapply below_step; eassumption.
+    Qed.
+    Lemma fin_survive p : descrs m p <> None -> ~ Rm p -> descrs mc p <> None.
+    Proof.
+      intros E NR. destruct (plain_or p) as [(d2 & Hi)|G]; [rewrite (fin_upd p d2 Hi E); discriminate|].
+      destruct (descrs m p) as [d0|] eqn:Eo; [|contradiction]. rewrite (plain_present L mc b p d0 LL H1 Eo NR G). discriminate.
+    Qed.
+
+    Lemma cm_tree : tree_ok m ->
+      (forall h d p, In (h, Some d) L -> descrs m h = None -> d_parent d = Some p ->
+         descrs m p <> None \/ exists d2, In (p, Some d2) L /\ descrs m p = None) ->
+      tree_ok m'.
+    Proof.
+      intros Ht Hno h d' p E' P. rewrite Hd' in *. destruct (plain_or h) as [(d & Hi)|G].
+      - destruct (descrs m h) as [o|] eqn:Eo.
+        + rewrite (fin_upd h d Hi) in E'; [|congruence]. injection E' as <-.
+          pose proof (HLi _ _ Hi) as Ok. unfold ditem_ok in Ok. rewrite Eo in Ok. destruct Ok as (Op & _).
+          rewrite Op in P. apply fin_survive; [exact (Ht h o p Eo P)|].
+          intros R. exact (Hnc_h h d Hi (child_Rm h o p R Eo P)).
+        + rewrite (fin_cr h d Hi Eo) in E'. injection E' as <-.
+          assert (Pd : d_parent d = Some p) by (destruct (memz h b); exact P).
+          destruct (Hno h d p Hi Eo Pd) as [Ep|(d2 & Hi2 & Ep)].
+          * apply fin_survive; [exact Ep|exact (Hnc_p h d p Hi Pd)].
+          * rewrite (fin_cr p d2 Hi2 Ep). discriminate.
+      - destruct (descrs m h) as [d0|] eqn:Eo.
+        + destruct (fin_other h d0 G Eo) as [S1 S2].
+          destruct (rem_below_dec L h) as [R|R]; [rewrite (S1 R) in E'; discriminate|].
+          rewrite (S2 R) in E'. injection E' as <-.
+          assert (Pd : d_parent d0 = Some p) by (destruct (memz h b); exact P).
+          apply fin_survive; [exact (Ht h d0 p Eo Pd)|]. intros Rp. apply R, Rm_rem. exact (child_Rm h d0 p Rp Eo Pd).
+        + pose proof (i_d _ _ _ H1 h) as S. unfold dspec in S. rewrite Eo in S.
+          destruct (alist_get L h) as [[d|]|] eqn:Gh; [apply L_in in Gh; now apply G in Gh|congruence|congruence].
+    Qed.
+
     Lemma cm_all : commit_facts ts0 m'.
     Proof.
       constructor.
@@ -1979,6 +2023,7 @@ Section DescrFold.
       - intros ch. rewrite Hcs'. destruct (alist_get tc ch) as [x|] eqn:G.
         + intros _. apply Hcd2'. congruence.
         + intros Hc. apply Hcd1', (c_dom _ _ HC), Hcdom. destruct (c_sub _ _ HC ch) as [S|S]; congruence.
+      - exact cm_tree.
     Qed.
   End Committed.
 
@@ -2067,6 +2112,19 @@ Proof.
     rewrite P, R in A. now rewrite orb_true_r in A.
 Qed.
 
+Lemma no_orphan m t : orphan_create m t = false ->
+  forall h d p, In (h, Some d) (t_d t) -> descrs m h = None -> d_parent d = Some p ->
+    descrs m p <> None \/ exists d2, In (p, Some d2) (t_d t) /\ descrs m p = None.
+Proof.
+  intros Ho h d p Hi Eo P. unfold orphan_create in Ho. cbv zeta in Ho.
+  pose proof (existsb_false _ _ Ho (h, Some d) Hi) as A. cbv beta in A.
+  assert (Ic : is_create m (h, Some d) = true) by (unfold is_create; cbn [fst snd]; now rewrite Eo).
+  rewrite Ic in A. cbn [fst snd andb] in A. rewrite P in A.
+  destruct (descrs m p) as [dp|] eqn:Ep; [left; discriminate|]. right.
+  destruct (memz p (map fst (filter (is_create m) (t_d t)))) eqn:M; [|cbn in A; discriminate].
+  apply cr_spec in M. destruct M as (d2 & Hi2 & _). now exists d2.
+Qed.
+
 Lemma commit_descr_facts m acts t : mdib_wf m -> dtx_ok m acts t -> subtree_conflict m t = false -> t_d t <> [] ->
   commit_facts (good0 m) m (t_d t) (t_s t) (commit_descr m t).
 Proof.
@@ -2116,6 +2174,11 @@ Theorem conflict_rejected m acts t : body 6 m empty_tx acts = Ok t -> subtree_co
   transaction 6 None acts m = (m, 3).
 Proof. intros B C. unfold transaction. rewrite B. cbn. now rewrite C. Qed.
 
+(* a transaction that creates a descriptor below a parent that neither exists nor is created with it is refused as well *)
+Theorem orphan_rejected m acts t : body 6 m empty_tx acts = Ok t -> orphan_create m t = true ->
+  transaction 6 None acts m = (m, 3).
+Proof. intros B C. unfold transaction. rewrite B. cbn. now rewrite C, orb_true_r. Qed.
+
 Section DescrTx.
   Variables (m : mdib) (acts : list action).
   Hypothesis Hwf : mdib_wf m.
@@ -2127,15 +2190,17 @@ Section DescrTx.
   Lemma descr_tx_cases :
     (code <> 0 /\ m' = m) \/
     (exists t, code = 0 /\ dtx_ok m acts t /\ (forall a, In a acts -> item_of m t a) /\
+       orphan_create m t = false /\
        ((t_d t = [] /\ m' = m) \/ (t_d t <> [] /\ commit_facts (good0 m) m (t_d t) (t_s t) m'))).
   Proof.
     subst m' code. unfold transaction. destruct (body 6 m empty_tx acts) as [t|e] eqn:B.
-    - replace (6 =? 6) with true by reflexivity. destruct (subtree_conflict m t) eqn:C.
+    - replace (6 =? 6) with true by reflexivity. destruct (subtree_conflict m t) eqn:C; [left; cbn; split; [discriminate|reflexivity]|].
+      destruct (orphan_create m t) eqn:Co; cbn [orb].
       + left. cbn. split; [discriminate|reflexivity].
       + right. exists t. cbn [fst snd].
         pose proof (body_dtx_ok m acts acts empty_tx t Hacts (incl_refl _) (empty_dtx_ok m acts) B) as Hok.
         destruct (body_items m acts empty_tx t Hacts B) as (_ & _ & Hit).
-        split; [reflexivity|]. split; [exact Hok|]. split; [exact Hit|].
+        split; [reflexivity|]. split; [exact Hok|]. split; [exact Hit|]. split; [exact Co|].
         destruct (t_d t) as [|e0 r0] eqn:EL.
         * left. split; [reflexivity|]. now apply commit_descr_empty.
         * right. split; [discriminate|]. rewrite <- EL. apply (commit_descr_facts m acts t Hwf Hok C). rewrite EL. discriminate.
@@ -2164,7 +2229,7 @@ Section DescrTx.
      ((forall p, ~ In (ADUpd h p) acts) -> d_pay d' = d_pay d0)) \/
     (~ touched m acts h /\ d' = d0).
   Proof.
-    intros Hc h d0 d' E E'. destruct descr_tx_cases as [[N _]|(t & _ & Hok & Hit & [[EL Em]|[NL F]])]; [contradiction| |].
+    intros Hc h d0 d' E E'. destruct descr_tx_cases as [[N _]|(t & _ & Hok & Hit & Hnor & [[EL Em]|[NL F]])]; [contradiction| |].
     - right. rewrite Em, E in E'. injection E' as <-. split; [|reflexivity].
       intros [(p & Hp)|[(c & k & p & sp & Hp)|(c & dc & Hp & _)]]; apply Hit in Hp; cbn [item_of] in Hp; rewrite EL in Hp.
       + destruct Hp as [(d & []) _].
@@ -2181,7 +2246,7 @@ Section DescrTx.
   (* a descriptor that is there before and after a committed transaction does not lie in a removed subtree *)
   Theorem descr_tx_survivor : code = 0 -> forall h D, In (ADDel D) acts -> In h (subtree m D) -> descrs m' h = None.
   Proof.
-    intros Hc h D HD Hx. destruct descr_tx_cases as [[N _]|(t & _ & Hok & Hit & [[EL _]|[NL F]])]; [contradiction| |].
+    intros Hc h D HD Hx. destruct descr_tx_cases as [[N _]|(t & _ & Hok & Hit & Hnor & [[EL _]|[NL F]])]; [contradiction| |].
     - apply Hit in HD. cbn [item_of] in HD. rewrite EL in HD. destruct HD as [[] _].
     - apply Hit in HD. cbn [item_of] in HD. exact (proj1 (cf_deleted _ _ _ _ _ F D h (proj1 HD) Hx)).
   Qed.
@@ -2194,7 +2259,7 @@ Section DescrTx.
   Theorem descr_tx_frame : forall h, ~ named h -> ~ touched m acts h -> (forall D, In (ADDel D) acts -> ~ below m h D) ->
     descrs m' h = descrs m h /\ states m' h = states m h.
   Proof.
-    intros h Nn Nt Nb. destruct descr_tx_cases as [[_ ->]|(t & _ & Hok & Hit & [[EL ->]|[NL F]])]; [now split|now split|].
+    intros h Nn Nt Nb. destruct descr_tx_cases as [[_ ->]|(t & _ & Hok & Hit & Hnor & [[EL ->]|[NL F]])]; [now split|now split|].
     assert (G : plain (t_d t) h).
     { intros d Hd. apply Nn. destruct (proj2 (dx_items _ _ _ Hok h _ Hd)) as [[_ (p & sp & Hp)]|[_ (p & Hp)]];
         [right; left; now exists (d_parent d), (d_kind d), p, sp|left; now exists p]. }
@@ -2212,7 +2277,7 @@ Section DescrTx.
   (* 2. state <-> descriptor consistency *)
   Theorem descr_tx_consistent : states_consistent m -> states_consistent m'.
   Proof.
-    intros Hc. destruct descr_tx_cases as [[_ ->]|(t & _ & Hok & Hit & [[EL ->]|[NL F]])]; [exact Hc|exact Hc|].
+    intros Hc. destruct descr_tx_cases as [[_ ->]|(t & _ & Hok & Hit & Hnor & [[EL ->]|[NL F]])]; [exact Hc|exact Hc|].
     intros h s Es. exact (cf_state_descr _ _ _ _ _ F h s (consistent_good m Hc h) Es).
   Qed.
 
@@ -2221,7 +2286,7 @@ Section DescrTx.
     (states_consistent m -> forall h d0 d' o, descrs m h = Some d0 -> descrs m' h = Some d' -> d_ver d' <> d_ver d0 ->
        states m h = Some o -> exists s', states m' h = Some s' /\ s_ver s' = s_ver o + 1 /\ s_dver s' = d_ver d').
   Proof.
-    destruct descr_tx_cases as [[_ Em]|(t & _ & Hok & Hit & [[EL Em]|[NL F]])].
+    destruct descr_tx_cases as [[_ Em]|(t & _ & Hok & Hit & Hnor & [[EL Em]|[NL F]])].
     - rewrite Em. split; [intros h o s' E E'; left; congruence|]. intros _ h d0 d' o E E'. congruence.
     - rewrite Em. split; [intros h o s' E E'; left; congruence|]. intros _ h d0 d' o E E'. congruence.
     - split; [exact (cf_state_step _ _ _ _ _ F)|]. intros Hc h d0 d' o.
@@ -2235,7 +2300,7 @@ Section DescrTx.
     (forall s, states m x = Some s -> sv_s m' x = Some (s_ver s)) /\
     (forall ch c, cstates m ch = Some c -> c_dh c = x -> cstates m' ch = None /\ sv_c m' ch = Some (c_ver c)).
   Proof.
-    intros Hc D x HD Hx. destruct descr_tx_cases as [[N _]|(t & _ & Hok & Hit & [[EL _]|[NL F]])]; [contradiction| |].
+    intros Hc D x HD Hx. destruct descr_tx_cases as [[N _]|(t & _ & Hok & Hit & Hnor & [[EL _]|[NL F]])]; [contradiction| |].
     - apply Hit in HD. cbn [item_of] in HD. rewrite EL in HD. destruct HD as [[] _].
     - apply Hit in HD. cbn [item_of] in HD. destruct (cf_deleted _ _ _ _ _ F D x (proj1 HD) Hx) as (A & B & C & E).
       split; [exact A|]. split; [exact B|]. split; [exact C|]. split; [exact E|].
@@ -2244,7 +2309,7 @@ Section DescrTx.
 
   (* the added descriptor starts at 0 or continues from the remembered version + 1 ([set_version]); it is one higher only
      if the same transaction also removes a child that named this (so far missing) handle as its parent; its state follows *)
-  Theorem descr_tx_created : code = 0 -> forall h par k p sp, In (ADAdd h par k p sp) acts ->
+  Lemma descr_tx_created_gen : code = 0 -> forall h par k p sp, In (ADAdd h par k p sp) acts ->
     descrs m h = None /\
     exists d', descrs m' h = Some d' /\ d_parent d' = par /\ d_kind d' = k /\ d_pay d' = p /\
       (d_ver d' = set_version (sv_d m) h 0 \/
@@ -2252,7 +2317,7 @@ Section DescrTx.
         exists c dc, In (ADDel c) acts /\ descrs m c = Some dc /\ d_parent dc = Some h)) /\
       (k <> K_CTX -> exists s, states m' h = Some s /\ s_dver s = d_ver d' /\ s_ver s = set_version (sv_s m) h 0).
   Proof.
-    intros Hc h par k p sp Ha. destruct descr_tx_cases as [[N _]|(t & _ & Hok & Hit & [[EL _]|[NL F]])]; [contradiction| |].
+    intros Hc h par k p sp Ha. destruct descr_tx_cases as [[N _]|(t & _ & Hok & Hit & Hnor & [[EL _]|[NL F]])]; [contradiction| |].
     - apply Hit in Ha. cbn [item_of] in Ha. rewrite EL in Ha. destruct Ha as [[] _].
     - apply Hit in Ha. cbn [item_of] in Ha. destruct Ha as (Hi & Eo & Hk). split; [exact Eo|].
       destruct (cf_created _ _ _ _ _ F h _ Hi Eo) as (d' & Ed & Hd & Es). exists d'. split; [exact Ed|].
@@ -2265,26 +2330,41 @@ Section DescrTx.
         exists c, dc. split; [exact (proj2 (dx_items _ _ _ Hok c _ Hc1))|now split].
   Qed.
 
-  (* if no removed descriptor names h as its parent, the added descriptor has exactly the continued version *)
-  Corollary descr_tx_created_exact : code = 0 -> forall h par k p sp, In (ADAdd h par k p sp) acts ->
-    (forall c dc, In (ADDel c) acts -> descrs m c = Some dc -> d_parent dc <> Some h) ->
-    descrs m' h = Some (mkDescr par k (set_version (sv_d m) h 0) p).
+  (* with every parent existing ([tree_ok]) nothing that is removed can name the new handle as its parent: the added
+     descriptor starts at 0 or continues from the remembered version + 1, and so does its state *)
+  Theorem descr_tx_created : tree_ok m -> code = 0 -> forall h par k p sp, In (ADAdd h par k p sp) acts ->
+    descrs m h = None /\
+    descrs m' h = Some (mkDescr par k (set_version (sv_d m) h 0) p) /\
+    (k <> K_CTX -> exists s, states m' h = Some s /\ s_dver s = set_version (sv_d m) h 0 /\
+                             s_ver s = set_version (sv_s m) h 0).
   Proof.
-    intros Hc h par k p sp Ha No. destruct (descr_tx_created Hc h par k p sp Ha) as (_ & d' & Ed & P & K & Y & V & _).
-    rewrite Ed. destruct d' as [a b c v]. cbn in *. subst. destruct V as [->|[_ (c0 & dc & H1 & H2 & H3)]]; [reflexivity|].
-    exfalso. exact (No c0 dc H1 H2 H3).
+    intros Ht Hc h par k p sp Ha. destruct (descr_tx_created_gen Hc h par k p sp Ha) as (Eo & d' & Ed & P & K & Y & V & S).
+    split; [exact Eo|].
+    assert (Ev : d_ver d' = set_version (sv_d m) h 0).
+    { destruct V as [V|[_ (c & dc & _ & Ec & Pc)]]; [exact V|]. exfalso. exact (Ht c dc h Ec Pc Eo). }
+    split.
+    - rewrite Ed. destruct d' as [a b c v]. cbn in *. now subst.
+    - intros Ek. destruct (S Ek) as (s & Es & Sd & Sv). exists s. split; [exact Es|]. split; [congruence|exact Sv].
+  Qed.
+
+  (* every non-root descriptor keeps having an existing parent: a removal takes all descendants, an added descriptor's
+     parent exists or is added with it (else the transaction is refused) *)
+  Theorem descr_tx_tree : tree_ok m -> tree_ok m'.
+  Proof.
+    intros Ht. destruct descr_tx_cases as [[_ ->]|(t & _ & Hok & Hit & Hnor & [[EL ->]|[NL F]])]; [exact Ht|exact Ht|].
+    exact (cf_tree _ _ _ _ _ F Ht (no_orphan m t Hnor)).
   Qed.
 
   (* versions of descriptor handles never decrease, present or remembered *)
   Theorem descr_tx_ev_d : forall h, ev_d m h <= ev_d m' h.
   Proof.
-    intros h. destruct descr_tx_cases as [[_ ->]|(t & _ & Hok & Hit & [[EL ->]|[NL F]])]; [lia|lia|].
+    intros h. destruct descr_tx_cases as [[_ ->]|(t & _ & Hok & Hit & Hnor & [[EL ->]|[NL F]])]; [lia|lia|].
     exact (cf_ev_d _ _ _ _ _ F h).
   Qed.
 
   Theorem descr_tx_wf : mdib_wf m'.
   Proof.
-    destruct descr_tx_cases as [[_ ->]|(t & _ & Hok & Hit & [[EL ->]|[NL F]])]; [exact Hwf|exact Hwf|].
+    destruct descr_tx_cases as [[_ ->]|(t & _ & Hok & Hit & Hnor & [[EL ->]|[NL F]])]; [exact Hwf|exact Hwf|].
     constructor; [exact (cf_dom _ _ _ _ _ F)|exact (cf_sd _ _ _ _ _ F)|exact (cf_ctx _ _ _ _ _ F)|exact (cf_cdom _ _ _ _ _ F)].
   Qed.
 End DescrTx.
@@ -2381,6 +2461,19 @@ Fixpoint hist_ok (m : mdib) (hist : list txn) : Prop :=
   | x :: r => txn_ok m x /\ hist_ok (exec1 m x) r
   end.
 
+Lemma tree_ok_same m m' : descrs m' = descrs m -> tree_ok m -> tree_ok m'.
+Proof. intros E Ht h d p. rewrite E. apply Ht. Qed.
+
+Lemma exec1_tree m x : mdib_wf m -> txn_ok m x -> tree_ok m -> tree_ok (exec1 m x).
+Proof.
+  destruct x as [[k ab] acts]. intros Hwf Hx. unfold exec1. cbn [txn_ok] in Hx. destruct ab as [n|].
+  - destruct (abort_never_commits k n acts m) as [_ ->]. tauto.
+  - destruct Hx as [[Hk Ho]|[(-> & Ho & Hf)|(-> & Ho)]].
+    + apply tree_ok_same. exact (proj1 (state_tx_frame k m acts Hk Ho)).
+    + apply tree_ok_same. exact (proj1 (proj2 (proj2 (ctx_tx_versions m acts Ho Hf)))).
+    + now apply descr_tx_tree.
+Qed.
+
 Lemma exec1_ok m x : mdib_wf m -> txn_ok m x ->
   mdib_wf (exec1 m x) /\ (states_consistent m -> states_consistent (exec1 m x)) /\ (forall h, ev_d m h <= ev_d (exec1 m x) h).
 Proof.
@@ -2396,18 +2489,21 @@ Qed.
 Theorem all_history hist : forall m, mdib_wf m -> hist_ok m hist ->
   mdib_wf (exec m hist) /\
   (states_consistent m -> states_consistent (exec m hist)) /\
+  (tree_ok m -> tree_ok (exec m hist)) /\
   (forall h, ev_d m h <= ev_d (exec m hist) h) /\
   (forall h d d', descrs m h = Some d -> descrs (exec m hist) h = Some d' -> d_ver d <= d_ver d').
 Proof.
   assert (Main : forall hist m, mdib_wf m -> hist_ok m hist ->
     mdib_wf (exec m hist) /\ (states_consistent m -> states_consistent (exec m hist)) /\
+    (tree_ok m -> tree_ok (exec m hist)) /\
     (forall h, ev_d m h <= ev_d (exec m hist) h)).
   { clear hist. induction hist as [|x r IH]; intros m Hwf Hh; cbn [exec fold_left].
-    - split; [exact Hwf|]. split; [tauto|intros; lia].
+    - split; [exact Hwf|]. split; [tauto|]. split; [tauto|intros; lia].
     - destruct Hh as [Hx Hr]. destruct (exec1_ok m x Hwf Hx) as (W & C & V).
-      destruct (IH (exec1 m x) W Hr) as (W2 & C2 & V2). unfold exec in *.
-      split; [exact W2|]. split; [auto|]. intros h. specialize (V h). specialize (V2 h). lia. }
-  intros m Hwf Hh. destruct (Main hist m Hwf Hh) as (W & C & V). split; [exact W|]. split; [exact C|]. split; [exact V|].
+      pose proof (exec1_tree m x Hwf Hx) as T.
+      destruct (IH (exec1 m x) W Hr) as (W2 & C2 & T2 & V2). unfold exec in *.
+      split; [exact W2|]. split; [auto|]. split; [auto|]. intros h. specialize (V h). specialize (V2 h). lia. }
+  intros m Hwf Hh. destruct (Main hist m Hwf Hh) as (W & C & T & V). split; [exact W|]. split; [exact C|]. split; [exact T|]. split; [exact V|].
   intros h d d' E E'. specialize (V h). unfold ev_d in V. now rewrite E, E' in V.
 Qed.
 
@@ -2498,6 +2594,24 @@ Example update_below_removed_rejected : rejected [ADUpd 3 33; ADDel 2].
 Proof. apply rejected_intro. vm_compute. reflexivity. Qed.
 Example update_after_remove_rejected : rejected [ADDel 2; ADUpd 3 33].
 Proof. apply rejected_intro. vm_compute. reflexivity. Qed.
+
+(* a descriptor below a parent that neither exists nor is created in the same transaction (handle 9) *)
+Example orphan_add_rejected : rejected [ADAdd 4 (Some 9) K_METRIC 40 41].
+Proof. apply rejected_intro. vm_compute. reflexivity. Qed.
+(* ... while parent and child may come in one transaction, in either order *)
+Example parent_and_child_commit :
+  snd (transaction 6 None [ADAdd 4 (Some 9) K_METRIC 40 41; ADAdd 9 (Some 1) K_COMP 90 91] w_m) = 0 /\
+  snd (transaction 6 None [ADAdd 9 (Some 1) K_COMP 90 91; ADAdd 4 (Some 9) K_METRIC 40 41] w_m) = 0.
+Proof. split; vm_compute; reflexivity. Qed.
+
+Lemma ex_tree : tree_ok ex_m.
+Proof.
+  intros h d p. cbn [descrs ex_m]. case_handles h; intros [= <-]; cbn; intros [= <-]; discriminate.
+Qed.
+Lemma w_tree : tree_ok w_m.
+Proof.
+  intros h d p. cbn [descrs w_m]. case_handles h; intros [= <-]; cbn; intros [= <-]; discriminate.
+Qed.
 
 (* a removal nested in another removal is fine (either order): everything is gone, nothing is left behind *)
 Example nested_remove_commits :
